@@ -173,3 +173,12 @@ def run_prop(ctx, pid, nested=False):
         "(lnd link discipline; the free variant is refuted: C03_free_rev_refuted)",
         "add/fee accept-or-reject decisions of validateCommitmentSanity are taken from the "
         "implementation (constraint outcomes, not part of the property)"]
+    if sp["with_cut"]:
+        ctx.assumptions += [
+            "a node crash is taken at kvdb read-write-transaction granularity: a transaction of the "
+            "channel DB either commits completely or leaves no trace (atomicity of bbolt / sqlite-kvdb "
+            "is trusted; the rollback path of both backends is exercised by the harness); crash points "
+            "= before/inside and after every transaction of SignNextCommitment, RevokeCurrentCommitment, "
+            "ReceiveRevocation and ProcessChanSyncMsg, plus every op boundary",
+            "kvdb backends exercised: bbolt and lnd's sqlite-backed kvdb (kvdb/sqlite); postgres and "
+            "etcd are not available offline"]
